@@ -2,7 +2,15 @@ package queue
 
 // C10 — one message through the REAL queue under a history of delivery attempts and restarts.
 //
-//   C10 run <hist> <hdr> <body> S=<strings> J=<i:j..|-> from=<i> to=<i.i> orc=<i:j..|-> f=<5 bits> auth=<0|1|2> late=<0|1>
+//   C10 run <hist> <hdr> <body> S=<strings> J=<i:j..|-> from=<i> to=<i.i> orc=<i:j..|-> f=<5 bits> auth=<0|1|2> late=<0|1> dsn=<0|1|2> X=<i.i|-> peer=<-|i.i/hist>
+//
+// dsn: the queue has no bounce pipeline / one that takes the failure reports / one that refuses them
+// at the body stage.  X: the strings address.SelectIDNA(<the message's SMTPUTF8 flag>, s) fails for
+// (library oracle for the model: a report that has to name such an address cannot be generated).
+// peer: a SECOND queue instance (own spool, own target, own history) fed by the same source with the
+// same metadata pointer, the same header value and the same body - what msgpipeline does for a
+// message with two targets; queue A runs up to the end of its first run of attempts (reports
+// included) before queue B's Commit, i.e. before B's first, in-memory attempt.
 //
 // (format documented in lean/Driver/C10.lean).  The recording target's view of every attempt is the
 // correspondence observation; the monitor compares it, byte for byte, with what was handed to the
@@ -41,6 +49,7 @@ import (
 
 	"github.com/emersion/go-message/textproto"
 	"github.com/emersion/go-smtp"
+	"github.com/foxcpp/maddy/framework/address"
 	"github.com/foxcpp/maddy/framework/buffer"
 	"github.com/foxcpp/maddy/framework/exterrors"
 	"github.com/foxcpp/maddy/framework/future"
@@ -88,6 +97,9 @@ type c10Case struct {
 	utf8, rtls, tro, quar, dts bool
 	auth    int
 	late    bool
+	dsn     int
+	peerTo  []int
+	peerSteps []c10Step
 }
 
 func c10GenBody(kind, n int, seed uint64) []byte {
@@ -126,9 +138,29 @@ func c10GenBody(kind, n int, seed uint64) []byte {
 	return b[:n]
 }
 
+func c10ParseHist(h string) ([]c10Step, error) {
+	var steps []c10Step
+	for si, s := range strings.Split(h, ".") {
+		switch {
+		case s == "r":
+			steps = append(steps, c10Step{restart: true})
+		case s == "R" && si == 0:
+			steps = append(steps, c10Step{restart: true, commit: true})
+		case len(s) >= 2 && s[0] == 'a' && (s[1] == 'P' || s[1] == 'A'):
+			steps = append(steps, c10Step{partial: s[1] == 'P', letters: s[2:]})
+		default:
+			return nil, fmt.Errorf("bad step %q", s)
+		}
+	}
+	return steps, nil
+}
+
 func c10ParseCase(op string) (*c10Case, error) {
 	t := strings.Fields(op)
-	if len(t) != 13 || t[0] != "C10" || t[1] != "run" {
+	if len(t) == 13 { // op lines recorded before the bounce pipeline / second queue were added
+		t = append(t, "dsn=0", "X=-", "peer=-")
+	}
+	if len(t) != 16 || t[0] != "C10" || t[1] != "run" {
 		return nil, fmt.Errorf("bad run op (%d tokens)", len(t))
 	}
 	c := &c10Case{op: op}
@@ -149,17 +181,9 @@ func c10ParseCase(op string) (*c10Case, error) {
 		}
 		return out
 	}
-	for si, s := range strings.Split(t[2], ".") {
-		switch {
-		case s == "r":
-			c.steps = append(c.steps, c10Step{restart: true})
-		case s == "R" && si == 0:
-			c.steps = append(c.steps, c10Step{restart: true, commit: true})
-		case len(s) >= 2 && s[0] == 'a' && (s[1] == 'P' || s[1] == 'A'):
-			c.steps = append(c.steps, c10Step{partial: s[1] == 'P', letters: s[2:]})
-		default:
-			return nil, fmt.Errorf("bad step %q", s)
-		}
+	var err0 error
+	if c.steps, err0 = c10ParseHist(t[2]); err0 != nil {
+		return nil, err0
 	}
 	if t[3] != "-" {
 		for _, f := range strings.Split(t[3], ",") {
@@ -225,7 +249,30 @@ func c10ParseCase(op string) (*c10Case, error) {
 		return nil, err
 	}
 	c.late = s == "1"
-	for _, i := range append([]int{c.from}, c.to...) {
+	if s, err = kv(13, "dsn"); err != nil || (s != "0" && s != "1" && s != "2") {
+		return nil, fmt.Errorf("bad dsn token")
+	}
+	c.dsn, _ = strconv.Atoi(s)
+	if _, err = kv(14, "X"); err != nil {
+		return nil, err
+	}
+	if s, err = kv(15, "peer"); err != nil {
+		return nil, err
+	}
+	if s != "-" {
+		p := strings.Split(s, "/")
+		if len(p) != 2 {
+			return nil, fmt.Errorf("bad peer %q", s)
+		}
+		c.peerTo = idxs(p[0])
+		if c.peerSteps, err = c10ParseHist(p[1]); err != nil {
+			return nil, err
+		}
+		if len(c.peerTo) == 0 {
+			return nil, fmt.Errorf("peer without recipients")
+		}
+	}
+	for _, i := range append(append([]int{c.from}, c.to...), c.peerTo...) {
 		if i < 0 || i >= len(c.strs) {
 			return nil, fmt.Errorf("string index %d out of range", i)
 		}
@@ -233,6 +280,11 @@ func c10ParseCase(op string) (*c10Case, error) {
 	for _, st := range c.steps {
 		if !st.restart && len(st.letters) != len(c.to) {
 			return nil, fmt.Errorf("plan %q does not cover %d recipients", st.letters, len(c.to))
+		}
+	}
+	for _, st := range c.peerSteps {
+		if !st.restart && len(st.letters) != len(c.peerTo) {
+			return nil, fmt.Errorf("peer plan %q does not cover %d recipients", st.letters, len(c.peerTo))
 		}
 	}
 	return c, nil
@@ -256,6 +308,18 @@ type c10Seen struct {
 	lenMethod             int
 	leak                  string
 	answeredTemp          []string // recipients this attempt left pending, by the target's own answers
+	reps                  []*c10Report // failure reports generated right after this attempt, in order
+}
+
+// c10Report: what the bounce pipeline was handed for one failure report (failed: the queue logged that
+// it could not generate one).
+type c10Report struct {
+	failed    bool
+	to        []string
+	utf8      bool
+	gotBody   bool
+	quoted    []byte // the last MIME part of the report: the header of the failed message
+	quotedOK  bool   // that part was found
 }
 
 type c10Target struct {
@@ -459,11 +523,100 @@ func c10ScanSpool(dir string, secrets [][]byte) string {
 	return strings.Join(hits, "; ")
 }
 
+// ---- the bounce pipeline: records the failure reports the queue generates ----
+// (what a report has to say is C18's business; here it is an event between attempts - which must not
+// change what later attempts, or other holders of the same header / metadata, see)
+
+type c10DsnTarget struct {
+	w      *c10World
+	refuse bool
+}
+
+type c10DsnDelivery struct {
+	t   *c10DsnTarget
+	rep *c10Report
+}
+
+func (w *c10World) addReport(rep *c10Report) {
+	w.tgt.mu.Lock()
+	defer w.tgt.mu.Unlock()
+	if n := len(w.tgt.seen); n > 0 {
+		w.tgt.seen[n-1].reps = append(w.tgt.seen[n-1].reps, rep)
+	} else {
+		w.orphanReports++
+	}
+	w.nreports++
+}
+
+func (t *c10DsnTarget) Start(ctx context.Context, msgMeta *module.MsgMetadata, mailFrom string) (module.Delivery, error) {
+	rep := &c10Report{utf8: msgMeta.SMTPOpts.UTF8}
+	t.w.addReport(rep)
+	return &c10DsnDelivery{t: t, rep: rep}, nil
+}
+
+func (d *c10DsnDelivery) AddRcpt(ctx context.Context, to string, _ smtp.RcptOptions) error {
+	d.t.w.tgt.mu.Lock()
+	d.rep.to = append(d.rep.to, to)
+	d.t.w.tgt.mu.Unlock()
+	return nil
+}
+
+func (d *c10DsnDelivery) Body(ctx context.Context, header textproto.Header, body buffer.Buffer) error {
+	r, err := body.Open()
+	if err != nil {
+		return err
+	}
+	blob, _ := io.ReadAll(r)
+	r.Close()
+	quoted, ok := c10QuotedHeader(header.Get("Content-Type"), blob)
+	d.t.w.tgt.mu.Lock()
+	d.rep.gotBody = true
+	d.rep.quoted, d.rep.quotedOK = quoted, ok
+	d.t.w.tgt.mu.Unlock()
+	if d.t.refuse {
+		return &exterrors.SMTPError{Code: 554, EnhancedCode: exterrors.EnhancedCode{5, 7, 1}, Message: "no reports here"}
+	}
+	return nil
+}
+
+func (d *c10DsnDelivery) Abort(ctx context.Context) error  { return nil }
+func (d *c10DsnDelivery) Commit(ctx context.Context) error { return nil }
+
+// c10QuotedHeader cuts the last part out of a multipart/report body: "Content-Description:
+// Undelivered message header" ... blank line ... <the header as textproto.WriteHeader writes it>
+// CRLF "--" boundary "--".
+func c10QuotedHeader(contentType string, blob []byte) ([]byte, bool) {
+	i := strings.Index(contentType, "boundary=")
+	if i < 0 {
+		return nil, false
+	}
+	boundary := strings.Trim(strings.TrimSpace(contentType[i+len("boundary="):]), "\"")
+	if j := strings.IndexByte(boundary, ';'); j >= 0 {
+		boundary = boundary[:j]
+	}
+	end := bytes.LastIndex(blob, []byte("\r\n--"+boundary+"--"))
+	mark := bytes.LastIndex(blob, []byte("Undelivered message header"))
+	if end < 0 || mark < 0 || mark > end {
+		return nil, false
+	}
+	// the part header ends at the first blank line after the first "--boundary" line preceding the mark
+	start := bytes.LastIndex(blob[:mark], []byte("--"+boundary+"\r\n"))
+	if start < 0 {
+		return nil, false
+	}
+	k := bytes.Index(blob[start:], []byte("\r\n\r\n"))
+	if k < 0 || start+k+4 > end {
+		return nil, false
+	}
+	return blob[start+k+4 : end], true
+}
+
 type c10LogOut struct {
 	mu      *sync.Mutex
 	readErr *int
 	loaded  *int
 	term    *[]string
+	genFail func()
 }
 
 func (o c10LogOut) Write(_ time.Time, _ bool, msg string) {
@@ -486,6 +639,10 @@ func (o c10LogOut) Write(_ time.Time, _ bool, msg string) {
 			*o.term = append(*o.term, f.Rcpt)
 			o.mu.Unlock()
 		}
+	}
+	// emitDSN: GenerateDSN returned an error, no report for this attempt
+	if strings.Contains(msg, "failed to generate fail DSN") && o.genFail != nil {
+		o.genFail()
 	}
 	// readDiskQueue: "loaded %d saved queue entries" - this instance scheduled something from the spool
 	if strings.Contains(msg, "loaded ") && strings.Contains(msg, "saved queue entries") {
@@ -526,6 +683,12 @@ type c10World struct {
 	leaks    []string
 	timedOut bool
 	events   []string
+	tag      string // "" or "queue B: " (prefix of the monitor's details)
+	pfx      string // "" or "peer." (prefix of the distribution keys)
+	dsnMode  int    // 0 no bounce pipeline, 1 one that accepts, 2 one that refuses at the body stage
+	nreports, orphanReports int
+	reportsElsewhere int // reports the OTHER queue of a two-queue case had generated before this one's Commit
+	afterFirst func() // called once when the first run of attempts is over (or at the end of the history)
 }
 
 func c10NewWorld(steps []c10Step, secrets [][]byte) *c10World {
@@ -563,7 +726,10 @@ func (w *c10World) newQ(idle bool) *Queue {
 	q.location = w.spool
 	q.Target = w.tgt
 	q.hostname = "mx.example.org"
-	q.Log = log.Logger{Out: c10LogOut{&w.logMu, &w.readErrs, &w.loaded, &w.terminal}}
+	q.Log = log.Logger{Out: c10LogOut{&w.logMu, &w.readErrs, &w.loaded, &w.terminal, func() { w.addReport(&c10Report{failed: true}) }}}
+	if w.dsnMode > 0 {
+		q.dsnPipeline = &c10DsnTarget{w: w, refuse: w.dsnMode == 2}
+	}
 	w.logMu.Lock()
 	w.loaded = 0
 	w.logMu.Unlock()
@@ -655,6 +821,7 @@ func (w *c10World) drive(steps []c10Step, committed bool) {
 			q.Close()
 			w.scan(fmt.Sprintf("after the attempts ending at step %d", i+n))
 			i += n
+			w.runAfterFirst()
 			w.logMu.Lock()
 			re := w.readErrs
 			w.readErrs = 0
@@ -700,6 +867,14 @@ func (w *c10World) drive(steps []c10Step, committed bool) {
 	}
 	if len(steps) == 0 {
 		q.Close()
+	}
+	w.runAfterFirst()
+}
+
+func (w *c10World) runAfterFirst() {
+	if f := w.afterFirst; f != nil {
+		w.afterFirst = nil
+		f()
 	}
 }
 
@@ -759,6 +934,16 @@ func (w *c10World) observation(strs []string, id string) (string, string) {
 		}
 		obs = append(obs, fmt.Sprintf("[from=%s to=%s f=%s%s%s orc=%s c=%s %s]", showS(s.from), showL(s.to),
 			c10Bit(s.utf8), c10Bit(s.rtls), c10Bit(s.tro), showM(s.orc), c10Bit(s.conn), cont))
+		for _, rep := range s.reps {
+			switch {
+			case rep.failed:
+				obs = append(obs, "rep[failed]")
+			case !rep.gotBody || !rep.quotedOK:
+				obs = append(obs, fmt.Sprintf("rep[to=%s u=%s hdr=?]", showL(rep.to), c10Bit(rep.utf8)))
+			default:
+				obs = append(obs, fmt.Sprintf("rep[to=%s u=%s hdr=%d.%d]", showL(rep.to), c10Bit(rep.utf8), len(rep.quoted), c10Digest(rep.quoted)))
+			}
+		}
 	}
 	// a spool read error can only follow the attempts served from memory
 	obs = append(obs, w.events...)
@@ -792,11 +977,12 @@ func (w *c10World) observation(strs []string, id string) (string, string) {
 // monitor: the property itself, evaluated on the real execution against what was accepted.
 // strictEnv: the envelope came through the real SMTP endpoint, nothing is outside the domain.
 func (w *c10World) monitor(out *vh.Out, op string, acc *c10Accepted, strictEnv bool) {
+	viol := func(sig, detail string) { out.Violation(sig, op, w.tag+detail) }
 	for _, l := range w.leaks {
-		out.Violation("C10/credential-in-spool", op, l)
+		viol("C10/credential-in-spool", l)
 	}
 	if w.timedOut {
-		out.Violation("C10/queue-did-not-settle", op, "the queue did not reach the planned attempt in time")
+		viol("C10/queue-did-not-settle", "the queue did not reach the planned attempt in time")
 	}
 	w.tgt.mu.Lock()
 	seen := w.tgt.seen
@@ -818,10 +1004,19 @@ func (w *c10World) monitor(out *vh.Out, op string, acc *c10Accepted, strictEnv b
 		}
 		return true
 	}
+	nrep := w.reportsElsewhere // failure reports generated (here or by the other queue) before the attempt
 	for k, s := range seen {
 		at := fmt.Sprintf("attempt %d: ", k+1)
+		if nrep > 0 {
+			at = fmt.Sprintf("attempt %d (%d failure report(s) generated before it): ", k+1, nrep)
+		}
+		for _, rep := range s.reps {
+			if !rep.failed {
+				nrep++
+			}
+		}
 		if s.leak != "" {
-			out.Violation("C10/credential-in-spool", op, at+s.leak)
+			viol("C10/credential-in-spool", at+s.leak)
 		}
 		if !acc.wf {
 			continue // header outside the property's domain (not something the parser accepts)
@@ -833,56 +1028,56 @@ func (w *c10World) monitor(out *vh.Out, op string, acc *c10Accepted, strictEnv b
 			continue
 		}
 		if s.from != acc.from {
-			out.Violation("C10/sender-changed", op, fmt.Sprintf("%ssender %q, accepted %q", at, s.from, acc.from))
+			viol("C10/sender-changed", fmt.Sprintf("%ssender %q, accepted %q", at, s.from, acc.from))
 		}
 		if !eqL(s.to, expectTo) {
-			out.Violation("C10/pending-recipients-changed", op, fmt.Sprintf("%srecipients %q, still pending %q", at, s.to, expectTo))
+			viol("C10/pending-recipients-changed", fmt.Sprintf("%srecipients %q, still pending %q", at, s.to, expectTo))
 		}
 		expectTo = s.answeredTemp
 		if s.utf8 != acc.utf8 {
-			out.Violation("C10/smtputf8-changed", op, at+"SMTPUTF8 "+c10Bit(s.utf8))
+			viol("C10/smtputf8-changed", at+"SMTPUTF8 "+c10Bit(s.utf8))
 		}
 		if s.rtls != acc.rtls {
-			out.Violation("C10/requiretls-changed", op, at+"REQUIRETLS "+c10Bit(s.rtls))
+			viol("C10/requiretls-changed", at+"REQUIRETLS "+c10Bit(s.rtls))
 		}
 		if s.tro != acc.tro {
-			out.Violation("C10/tls-required-override-changed", op, at+"TLSRequireOverride "+c10Bit(s.tro))
+			viol("C10/tls-required-override-changed", at+"TLSRequireOverride "+c10Bit(s.tro))
 		}
 		if len(s.orc) != len(acc.orc) {
-			out.Violation("C10/original-rcpts-changed", op, fmt.Sprintf("%s%d entries, accepted %d", at, len(s.orc), len(acc.orc)))
+			viol("C10/original-rcpts-changed", fmt.Sprintf("%s%d entries, accepted %d", at, len(s.orc), len(acc.orc)))
 		} else {
 			for a, b := range acc.orc {
 				if s.orc[a] != b {
-					out.Violation("C10/original-rcpts-changed", op, fmt.Sprintf("%s%q -> %q, accepted -> %q", at, a, s.orc[a], b))
+					viol("C10/original-rcpts-changed", fmt.Sprintf("%s%q -> %q, accepted -> %q", at, a, s.orc[a], b))
 					break
 				}
 			}
 		}
 		if !s.idOK {
-			out.Violation("C10/message-id-changed", op, at+"delivery id does not extend the accepted id")
+			viol("C10/message-id-changed", at+"delivery id does not extend the accepted id")
 		}
 		if !s.gotBody {
 			continue
 		}
 		if s.hdrErr != "" {
-			out.Violation("C10/content-unreadable", op, at+s.hdrErr)
+			viol("C10/content-unreadable", at+s.hdrErr)
 		}
 		if !bytes.Equal(s.hdr, acc.hdr) {
-			out.Violation("C10/header-bytes-changed", op, fmt.Sprintf("%sheader %s, accepted %s", at, vh.HexBytes(s.hdr), vh.HexBytes(acc.hdr)))
+			viol("C10/header-bytes-changed", fmt.Sprintf("%sheader %s, accepted %s", at, vh.HexBytes(s.hdr), vh.HexBytes(acc.hdr)))
 		}
 		if !s.bodyEqual {
-			out.Violation("C10/body-bytes-changed", op, fmt.Sprintf("%sbody %d bytes digest %d, accepted %d bytes digest %d", at, s.bodyLen, s.bodyDigest, len(acc.body), c10Digest(acc.body)))
+			viol("C10/body-bytes-changed", fmt.Sprintf("%sbody %d bytes digest %d, accepted %d bytes digest %d", at, s.bodyLen, s.bodyDigest, len(acc.body), c10Digest(acc.body)))
 		}
 		if s.lenMethod != s.bodyLen {
-			out.Violation("C10/body-len-mismatch", op, fmt.Sprintf("%sBuffer.Len() = %d but %d bytes can be read", at, s.lenMethod, s.bodyLen))
+			viol("C10/body-len-mismatch", fmt.Sprintf("%sBuffer.Len() = %d but %d bytes can be read", at, s.lenMethod, s.bodyLen))
 		}
 	}
 	w.monitorPending(out, op, acc, strictEnv, seen, eqL)
 	if acc.wf && len(w.events) > 0 {
-		out.Violation("C10/spool-unreadable", op, "the queue could not re-read a message it accepted (well-formed header)")
+		viol("C10/spool-unreadable", "the queue could not re-read a message it accepted (well-formed header)")
 	}
 	if len(seen) > len(w.tgt.attempts) {
-		out.Violation("C10/unplanned-attempt", op, fmt.Sprintf("%d attempts, history has %d", len(seen), len(w.tgt.attempts)))
+		viol("C10/unplanned-attempt", fmt.Sprintf("%d attempts, history has %d", len(seen), len(w.tgt.attempts)))
 	}
 }
 
@@ -895,11 +1090,12 @@ func (w *c10World) monitor(out *vh.Out, op string, acc *c10Accepted, strictEnv b
 // unaltered, whenever the queue is at rest.  Judged from the recording target's answers and the
 // spool files only - not from the model.
 func (w *c10World) monitorPending(out *vh.Out, op string, acc *c10Accepted, strictEnv bool, seen []*c10Seen, eqL func(a, b []string) bool) {
+	viol := func(sig, detail string) { out.Violation(sig, op, w.tag+detail) }
 	if !acc.wf || (!acc.envUTF8 && !strictEnv) {
 		return // outside the property's domain (see monitor)
 	}
 	if !w.acked {
-		out.Stat("pending-rule.not-applicable.never-acknowledged")
+		out.Stat(w.pfx+"pending-rule.not-applicable.never-acknowledged")
 		return
 	}
 	pend := append([]string{}, acc.to...)
@@ -925,12 +1121,12 @@ func (w *c10World) monitorPending(out *vh.Out, op string, acc *c10Accepted, stri
 			}
 		}
 		if len(still) != len(pend) {
-			out.Stat("pending-rule.terminal-outcome-recorded-for-a-deferred-recipient")
+			out.Stat(w.pfx+"pending-rule.terminal-outcome-recorded-for-a-deferred-recipient")
 		}
 		pend = still
 	}
 	if len(pend) == 0 {
-		out.Stat("pending-rule.nobody-pending-at-the-end")
+		out.Stat(w.pfx+"pending-rule.nobody-pending-at-the-end")
 		return
 	}
 	spoolState := func() (string, map[string][]byte) {
@@ -968,8 +1164,8 @@ func (w *c10World) monitorPending(out *vh.Out, op string, acc *c10Accepted, stri
 		why = " (waited for the time limit)"
 	}
 	if len(seen) < len(w.tgt.attempts) {
-		out.Stat("pending-rule.violated.next-attempt-missing")
-		out.Violation("C10/pending-message-dropped", op, fmt.Sprintf("%s recipients %q were still pending (no terminal outcome), but attempt %d of the history never took place%s; spool: %s; accepted body %d bytes, header %d bytes",
+		out.Stat(w.pfx+"pending-rule.violated.next-attempt-missing")
+		viol("C10/pending-message-dropped", fmt.Sprintf("%s recipients %q were still pending (no terminal outcome), but attempt %d of the history never took place%s; spool: %s; accepted body %d bytes, header %d bytes",
 			after, pend, len(seen)+1, why, names, len(acc.body), len(acc.hdr)))
 		return
 	}
@@ -978,27 +1174,27 @@ func (w *c10World) monitorPending(out *vh.Out, op string, acc *c10Accepted, stri
 	hdrFile, hasHdr := files["ID.header"]
 	bodyFile, hasBody := files["ID.body"]
 	if !hasMeta || !hasHdr || !hasBody {
-		out.Stat("pending-rule.violated.left-the-spool")
-		out.Violation("C10/pending-message-dropped", op, fmt.Sprintf("%s recipients %q are still pending (no terminal outcome), but the message is not in the spool any more; spool: %s; accepted body %d bytes, header %d bytes",
+		out.Stat(w.pfx+"pending-rule.violated.left-the-spool")
+		viol("C10/pending-message-dropped", fmt.Sprintf("%s recipients %q are still pending (no terminal outcome), but the message is not in the spool any more; spool: %s; accepted body %d bytes, header %d bytes",
 			after, pend, names, len(acc.body), len(acc.hdr)))
 		return
 	}
-	out.Stat("pending-rule.checked.at-rest")
+	out.Stat(w.pfx+"pending-rule.checked.at-rest")
 	if m, err := w.q.readMessageMeta(acc.id); err != nil {
-		out.Violation("C10/spool-unreadable", op, "at rest with recipients pending: "+err.Error())
+		viol("C10/spool-unreadable", "at rest with recipients pending: "+err.Error())
 	} else {
 		if !eqL(m.To, pend) {
-			out.Violation("C10/pending-recipients-changed", op, fmt.Sprintf("at rest %s: the spool lists %q, still pending %q", after, m.To, pend))
+			viol("C10/pending-recipients-changed", fmt.Sprintf("at rest %s: the spool lists %q, still pending %q", after, m.To, pend))
 		}
 		if m.From != acc.from {
-			out.Violation("C10/sender-changed", op, fmt.Sprintf("at rest %s: the spool has sender %q, accepted %q", after, m.From, acc.from))
+			viol("C10/sender-changed", fmt.Sprintf("at rest %s: the spool has sender %q, accepted %q", after, m.From, acc.from))
 		}
 	}
 	if !bytes.Equal(hdrFile, acc.hdr) {
-		out.Violation("C10/spool-content-changed", op, fmt.Sprintf("at rest %s: header file %d bytes digest %d, accepted %d bytes digest %d", after, len(hdrFile), c10Digest(hdrFile), len(acc.hdr), c10Digest(acc.hdr)))
+		viol("C10/spool-content-changed", fmt.Sprintf("at rest %s: header file %d bytes digest %d, accepted %d bytes digest %d", after, len(hdrFile), c10Digest(hdrFile), len(acc.hdr), c10Digest(acc.hdr)))
 	}
 	if !bytes.Equal(bodyFile, acc.body) {
-		out.Violation("C10/spool-content-changed", op, fmt.Sprintf("at rest %s: body file %d bytes digest %d, accepted %d bytes digest %d", after, len(bodyFile), c10Digest(bodyFile), len(acc.body), c10Digest(acc.body)))
+		viol("C10/spool-content-changed", fmt.Sprintf("at rest %s: body file %d bytes digest %d, accepted %d bytes digest %d", after, len(bodyFile), c10Digest(bodyFile), len(acc.body), c10Digest(acc.body)))
 	}
 }
 
@@ -1112,6 +1308,58 @@ func c10Secrets(tag string) (user, pass string, secrets [][]byte) {
 
 // ---- running one queue-level case ----
 
+func (w *c10World) reportCount() (generated, failed int) {
+	w.tgt.mu.Lock()
+	defer w.tgt.mu.Unlock()
+	for _, s := range w.tgt.seen {
+		for _, rep := range s.reps {
+			if rep.failed {
+				failed++
+			} else {
+				generated++
+			}
+		}
+	}
+	return
+}
+
+// reportStats: where the failure reports fall in the history (distribution).
+func (w *c10World) reportStats(out *vh.Out, pfx string, acc *c10Accepted) {
+	w.tgt.mu.Lock()
+	seen := w.tgt.seen
+	w.tgt.mu.Unlock()
+	out.Stat(fmt.Sprintf("%s.bounce-pipeline.%d", pfx, w.dsnMode))
+	n := w.reportsElsewhere
+	for k, s := range seen {
+		if n > 0 {
+			out.Stat(pfx + ".attempt-after-a-report")
+			if k == 0 {
+				out.Stat(pfx + ".first-attempt-after-a-report-of-the-other-queue")
+			}
+			if s.gotBody {
+				out.Stat(pfx + ".attempt-after-a-report.with-content")
+			}
+		}
+		for _, rep := range s.reps {
+			switch {
+			case rep.failed:
+				out.Stat(pfx + ".report.generation-failed")
+			default:
+				n++
+				out.Stat(pfx + ".report.generated.utf8-" + c10Bit(rep.utf8) + ".message-utf8-" + c10Bit(acc.utf8))
+				if k == 0 {
+					out.Stat(pfx + ".report.after-an-attempt-from-memory")
+				} else {
+					out.Stat(pfx + ".report.after-an-attempt-from-the-spool")
+				}
+			}
+		}
+	}
+	if w.orphanReports > 0 {
+		out.Stat(pfx + ".report.before-any-attempt")
+	}
+}
+
 func c10Run(out *vh.Out, op string) {
 	c, err := c10ParseCase(op)
 	if err != nil {
@@ -1130,6 +1378,7 @@ func c10Run(out *vh.Out, op string) {
 	user, pass, secrets := c10Secrets(id)
 	w := c10NewWorld(c.steps, secrets)
 	defer w.cleanup()
+	w.dsnMode = c.dsn
 	str := func(i int) string { return c.strs[i] }
 	acc := &c10Accepted{id: id, from: str(c.from), utf8: c.utf8, rtls: c.rtls, tro: c.tro, body: body, envUTF8: true}
 	for _, i := range c.to {
@@ -1144,6 +1393,26 @@ func c10Run(out *vh.Out, op string) {
 	w.tgt.id = id
 	w.tgt.accBody = body
 
+	// a second queue fed by the same source (same metadata pointer, same header value, same body)
+	peer := len(c.peerTo) > 0
+	var wB *c10World
+	var accB *c10Accepted
+	if peer {
+		wB = c10NewWorld(c.peerSteps, secrets)
+		defer wB.cleanup()
+		wB.dsnMode = c.dsn
+		wB.tag, wB.pfx = "queue B: ", "peer."
+		cp := *acc
+		accB = &cp
+		accB.to = nil
+		for _, i := range c.peerTo {
+			accB.to = append(accB.to, str(i))
+		}
+		wB.tgt.toStrs = accB.to
+		wB.tgt.id = id
+		wB.tgt.accBody = body
+	}
+
 	// --- accept the message
 	q := w.newQ(false)
 	ctx := context.Background()
@@ -1154,7 +1423,15 @@ func c10Run(out *vh.Out, op string) {
 			orc[str(p[0])] = str(p[1])
 		}
 	}
-	acc.orc = orc
+	if orc != nil {
+		acc.orc = map[string]string{}
+		for a, b := range orc {
+			acc.orc[a] = b
+		}
+		if peer {
+			accB.orc = acc.orc
+		}
+	}
 	var conn *module.ConnState
 	if c.auth > 0 {
 		conn = &module.ConnState{Proto: "ESMTPSA", Hostname: "client.example.net",
@@ -1187,6 +1464,18 @@ func c10Run(out *vh.Out, op string) {
 			panic(err)
 		}
 	}
+	var dB module.Delivery
+	if peer {
+		qB := wB.newQ(false)
+		if dB, err = qB.Start(ctx, msgMeta, str(c.from)); err != nil {
+			panic(err)
+		}
+		for _, i := range c.peerTo {
+			if err := dB.AddRcpt(ctx, str(i), smtp.RcptOptions{}); err != nil {
+				panic(err)
+			}
+		}
+	}
 	if c.late { // endpoint/smtp sets the flag in DATA, after MAIL and RCPT went through the pipeline
 		msgMeta.TLSRequireOverride = c.tro
 	}
@@ -1199,11 +1488,17 @@ func c10Run(out *vh.Out, op string) {
 			hdr.AddRaw(f.raw)
 		}
 	}
+	closeAll := func() {
+		q.Close()
+		if peer {
+			wB.q.Close()
+		}
+	}
 	accFields, rawErr := c10RawFields(hdr)
 	if rawErr != nil {
 		out.Corr(op, "bad-op")
 		out.Note("generated field cannot be formatted: " + rawErr.Error())
-		q.Close()
+		closeAll()
 		return
 	}
 	for i, f := range c.fields {
@@ -1217,6 +1512,9 @@ func c10Run(out *vh.Out, op string) {
 	acc.hdr = accHdr.Bytes()
 	acc.fields = accFields
 	acc.wf = c10AllWF(accFields)
+	if peer {
+		accB.hdr, accB.fields, accB.wf = acc.hdr, acc.fields, acc.wf
+	}
 
 	var bodyBuf buffer.Buffer
 	if c.bufKind == 'f' {
@@ -1230,38 +1528,102 @@ func c10Run(out *vh.Out, op string) {
 	if err := d.Body(ctx, hdr, bodyBuf); err != nil {
 		out.Corr(op, "body-rejected")
 		out.Note("queue refused the body: " + err.Error())
-		q.Close()
+		closeAll()
 		return
 	}
 	w.scan("after Body")
-	committed := false
-	if len(c.steps) > 0 && (!c.steps[0].restart || c.steps[0].commit) {
-		if c.steps[0].commit {
-			// the server is shutting down while the transaction completes: Queue.Close has stopped the
-			// time wheel, Commit is still answered - nothing is dispatched, the message is in the spool
-			q.wheel.Close()
-		}
-		if err := d.Commit(ctx); err != nil {
-			if !c.steps[0].commit {
-				panic(err)
-			}
-			out.Corr(op, "commit-refused")
-			out.Note("a stopping queue refused Commit: " + err.Error())
-			q.Close()
+	if peer {
+		// the SAME header value and body buffer go to the second target (msgpipeline: one Body call per target)
+		if err := dB.Body(ctx, hdr, bodyBuf); err != nil {
+			out.Corr(op, "body-rejected")
+			out.Note("queue B refused the body: " + err.Error())
+			d.Abort(ctx)
+			closeAll()
 			return
 		}
-		committed = true
-		w.acked = true
+		wB.scan("after Body")
 	}
-	bodyBuf.Remove() // endpoint/smtp removes its buffer as soon as DATA returns
+	// commit: ok=false - a stopping queue refused Commit
+	commit := func(w *c10World, d module.Delivery, steps []c10Step) (committed, ok bool) {
+		if len(steps) > 0 && (!steps[0].restart || steps[0].commit) {
+			if steps[0].commit {
+				// the server is shutting down while the transaction completes: Queue.Close has stopped the
+				// time wheel, Commit is still answered - nothing is dispatched, the message is in the spool
+				w.q.wheel.Close()
+			}
+			if err := d.Commit(ctx); err != nil {
+				if !steps[0].commit {
+					panic(err)
+				}
+				out.Note("a stopping queue refused Commit: " + err.Error())
+				return false, false
+			}
+			w.acked = true
+			return true, true
+		}
+		return false, true
+	}
+	committed, ok := commit(w, d, c.steps)
+	if !ok {
+		out.Corr(op, "commit-refused")
+		closeAll()
+		return
+	}
+	peerRefused := false
+	if peer {
+		// queue A gets as far as the end of its first run of attempts - with the failure reports these
+		// give rise to - before the source commits to queue B: B's first attempt is served from the
+		// in-memory metadata and header it shares with A and with the source
+		w.afterFirst = func() {
+			wB.reportsElsewhere, _ = w.reportCount()
+			committedB, ok := commit(wB, dB, c.peerSteps)
+			if !ok {
+				peerRefused = true
+				wB.q.Close()
+				return
+			}
+			wB.drive(c.peerSteps, committedB)
+		}
+	}
+	bodyBuf.Remove() // endpoint/smtp removes its buffer as soon as DATA returns (every target has stored its copy in Body)
 
 	w.drive(c.steps, committed)
+	if peerRefused {
+		out.Corr(op, "commit-refused")
+		return
+	}
 	obs, fin := w.observation(c.strs, id)
+	if peer {
+		obsB, _ := wB.observation(c.strs, id)
+		obs += " || " + obsB
+	}
 	out.Corr(op, obs)
 	w.monitor(out, op, acc, false)
+	if peer {
+		wB.monitor(out, op, accB, false)
+	}
+	// what the source still holds - the header value and the metadata object every target of the
+	// message was given (and every later consumer will be given) - is still what the queue accepted
+	c10SharedUnchanged(out, op, hdr, msgMeta, acc)
 
 	// --- distribution
 	w.stats(out, "run", c.steps, acc, fin)
+	w.reportStats(out, "run", acc)
+	if peer {
+		out.Stat("run.two-queues")
+		wB.reportStats(out, "peer", accB)
+		wB.tgt.mu.Lock()
+		out.Stat(fmt.Sprintf("peer.attempts.%d", len(wB.tgt.seen)))
+		wB.tgt.mu.Unlock()
+	}
+	for _, f := range acc.fields {
+		if k := bytes.IndexByte(f, ':'); k > 0 {
+			switch strings.ToLower(strings.TrimSpace(string(f[:k]))) {
+			case "bcc", "resent-bcc":
+				out.Stat("run.header-with-bcc")
+			}
+		}
+	}
 	if len(c.steps) > 0 && c.steps[0].restart {
 		if c.steps[0].commit {
 			out.Stat("run.restart-after-commit-before-first-attempt")
@@ -1283,6 +1645,54 @@ func c10Run(out *vh.Out, op string) {
 	if c.orcNil {
 		out.Stat("run.orc.nil")
 	}
+}
+
+// c10SharedUnchanged: the header value handed to Body and the metadata object handed to Start are
+// shared - with the source, with every other target of the same message (msgpipeline hands the same
+// two to each of them), with whoever looks at them later.  textproto.Header is a struct around a
+// slice and a map: a by-value copy still shares both.  Whatever the queue did meanwhile (attempts,
+// failure reports, restarts), they must still be what it accepted.
+func c10SharedUnchanged(out *vh.Out, op string, hdr textproto.Header, m *module.MsgMetadata, acc *c10Accepted) {
+	var hb bytes.Buffer
+	if err := textproto.WriteHeader(&hb, hdr); err != nil {
+		out.Violation("C10/shared-header-changed", op, "the header value the source holds cannot be written any more: "+err.Error())
+	} else if !bytes.Equal(hb.Bytes(), acc.hdr) {
+		out.Violation("C10/shared-header-changed", op, fmt.Sprintf("after the history the header value the source (and every other target of the message) holds is %s, accepted %s",
+			c10Abbrev(hb.Bytes()), c10Abbrev(acc.hdr)))
+	}
+	var diffs []string
+	if m.SMTPOpts.UTF8 != acc.utf8 {
+		diffs = append(diffs, "SMTPOpts.UTF8 "+c10Bit(m.SMTPOpts.UTF8))
+	}
+	if m.SMTPOpts.RequireTLS != acc.rtls {
+		diffs = append(diffs, "SMTPOpts.RequireTLS "+c10Bit(m.SMTPOpts.RequireTLS))
+	}
+	if m.TLSRequireOverride != acc.tro {
+		diffs = append(diffs, "TLSRequireOverride "+c10Bit(m.TLSRequireOverride))
+	}
+	if m.ID != acc.id {
+		diffs = append(diffs, "ID")
+	}
+	if len(m.OriginalRcpts) != len(acc.orc) {
+		diffs = append(diffs, fmt.Sprintf("OriginalRcpts has %d entries, accepted %d", len(m.OriginalRcpts), len(acc.orc)))
+	} else {
+		for a, b := range acc.orc {
+			if m.OriginalRcpts[a] != b {
+				diffs = append(diffs, fmt.Sprintf("OriginalRcpts[%q] = %q, accepted %q", a, m.OriginalRcpts[a], b))
+				break
+			}
+		}
+	}
+	if len(diffs) > 0 {
+		out.Violation("C10/shared-metadata-changed", op, "after the history the metadata object the source (and every other target of the message) holds has "+strings.Join(diffs, "; "))
+	}
+}
+
+func c10Abbrev(b []byte) string {
+	if len(b) > 600 {
+		return fmt.Sprintf("%s...(%d bytes, digest %d)", vh.HexBytes(b[:600]), len(b), c10Digest(b))
+	}
+	return vh.HexBytes(b)
 }
 
 // ---- generators ----
@@ -1550,6 +1960,36 @@ func c10GenRun(r *vh.Rng, big bool, edge int) string {
 	}
 	b := c10GenBody(kind, n, seed)
 	body := fmt.Sprintf("%s:%d:%d:%d:%d", buf, kind, n, seed, c10Digest(b))
+	// a second queue fed by the same source
+	peerS := "-"
+	if edge < 0 && !big && r.Chance(18) {
+		var pt []string
+		for n := 1 + r.Intn(3); len(pt) < n; {
+			if i := add(c10GenAddr(r)); i != 0 {
+				pt = append(pt, strconv.Itoa(i))
+			}
+		}
+		peerS = strings.Join(pt, ".") + "/" + strings.Join(c10GenPeerHist(r, len(pt)), ".")
+	}
+	flags := c10Bit(r.Bool()) + c10Bit(r.Chance(35)) + c10Bit(r.Chance(35)) + c10Bit(r.Chance(20)) + c10Bit(r.Chance(30))
+	auth := []int{0, 1, 2, 2, 2}[r.Intn(5)]
+	late := c10Bit(r.Chance(50))
+	dsn := []int{1, 1, 1, 1, 1, 1, 1, 2, 0, 0}[r.Intn(10)]
+	return c10OpLine(strs, strings.Join(steps, "."), hdr, body, from, to, orc, flags, auth, late, dsn, peerS)
+}
+
+// c10OpLine completes the string table (what encoding/json does not give back unchanged; what has no
+// representation in a failure report) and renders the op line.
+func c10OpLine(strs []string, hist, hdr, body string, from int, to []int, orc, flags string, auth int, late string, dsn int, peer string) string {
+	add := func(s string) int {
+		for i, x := range strs {
+			if x == s {
+				return i
+			}
+		}
+		strs = append(strs, s)
+		return len(strs) - 1
+	}
 	// strings encoding/json does not give back unchanged (not valid UTF-8), with what comes back
 	var jp []string
 	for i, n := 0, len(strs); i < n; i++ {
@@ -1561,6 +2001,21 @@ func c10GenRun(r *vh.Rng, big bool, edge int) string {
 	if len(jp) > 0 {
 		jtab = strings.Join(jp, ".")
 	}
+	// addresses a failure report for THIS message cannot name (address.SelectIDNA fails: no ASCII form
+	// of a Unicode local part without SMTPUTF8, labels IDNA refuses, no '@')
+	var xs []string
+	for i, s := range strs {
+		if i == 0 {
+			continue
+		}
+		if _, err := address.SelectIDNA(flags[0] == '1', s); err != nil {
+			xs = append(xs, strconv.Itoa(i))
+		}
+	}
+	xtab := "-"
+	if len(xs) > 0 {
+		xtab = strings.Join(xs, ".")
+	}
 	var ss []string
 	for _, s := range strs {
 		ss = append(ss, vh.HexBytes([]byte(s)))
@@ -1569,10 +2024,261 @@ func c10GenRun(r *vh.Rng, big bool, edge int) string {
 	for _, t := range to {
 		ts = append(ts, strconv.Itoa(t))
 	}
-	flags := c10Bit(r.Bool()) + c10Bit(r.Chance(35)) + c10Bit(r.Chance(35)) + c10Bit(r.Chance(20)) + c10Bit(r.Chance(30))
-	auth := []int{0, 1, 2, 2, 2}[r.Intn(5)]
-	return fmt.Sprintf("C10 run %s %s %s S=%s J=%s from=%d to=%s orc=%s f=%s auth=%d late=%s", strings.Join(steps, "."), hdr, body,
-		strings.Join(ss, ","), jtab, from, strings.Join(ts, "."), orc, flags, auth, c10Bit(r.Chance(50)))
+	return fmt.Sprintf("C10 run %s %s %s S=%s J=%s from=%d to=%s orc=%s f=%s auth=%d late=%s dsn=%d X=%s peer=%s", hist, hdr, body,
+		strings.Join(ss, ","), jtab, from, strings.Join(ts, "."), orc, flags, auth, late, dsn, xtab, peer)
+}
+
+// c10GenPeerHist: the history of the second queue of a two-queue case (n recipients).
+func c10GenPeerHist(r *vh.Rng, n int) []string {
+	var steps []string
+	if r.Chance(10) {
+		steps = append(steps, "R")
+	}
+	na := 1 + r.Intn(3)
+	keep := []int{40, 70, 100}[r.Intn(3)]
+	for a := 0; a < na; a++ {
+		kind := "P"
+		if r.Chance(30) {
+			kind = "A"
+		}
+		var ls []byte
+		for i := 0; i < n; i++ {
+			switch {
+			case r.Chance(keep):
+				ls = append(ls, "tq"[r.Intn(5)/4])
+			case r.Chance(40):
+				ls = append(ls, 'p')
+			default:
+				ls = append(ls, 'o')
+			}
+		}
+		steps = append(steps, "a"+kind+string(ls))
+		if r.Chance(35) && (a+1 < na || r.Chance(30)) {
+			steps = append(steps, "r")
+		}
+	}
+	return steps
+}
+
+// ---- bounce grid: failure reports between attempts, two queues, headers a report writer may touch ----
+
+// Header fields a report generator (or whoever else gets hold of the header between attempts) has
+// reasons to drop, rewrite or re-order: blind-copy recipients, trace fields, signatures, MIME fields.
+var c10TouchyFields = []string{
+	"Bcc: hidden@example.org, \"Second, Hidden\" <hidden2@example.net>\r\n",
+	"bcc:hidden3@example.org\r\n",
+	"Resent-Bcc: resent-hidden@example.org\r\n",
+	"Return-Path: <bounces+tag@example.com>\r\n",
+	"Received: from a.example (a.example [192.0.2.9])\r\n\tby mx.example.org with ESMTPS id 4242;\r\n\tTue, 29 Sep 2026 10:00:00 +0000\r\n",
+	"Received: from b.example by a.example; Tue, 29 Sep 2026 09:59:00 +0000\r\n",
+	"DKIM-Signature: v=1; a=rsa-sha256; d=example.com; s=sel;\r\n h=From:To:Subject:Bcc; bh=QUJDREVGRw==;\r\n b=abcdEFGH0123+/abcdEFGH0123+/\r\n",
+	"Authentication-Results: mx.example.org; spf=pass smtp.mailfrom=example.com\r\n",
+	"Content-Type: multipart/mixed; boundary=\"=_outer\"\r\n",
+	"Content-Transfer-Encoding: 8bit\r\n",
+	"MIME-Version: 1.0\r\n",
+	"Message-Id: <original-id@example.com>\r\n",
+	"Disposition-Notification-To: sender@example.com\r\n",
+	"X-Original-To: alias@example.org\r\n",
+	"Delivered-To: someone@example.org\r\n",
+	"Subject: =?utf-8?b?0L/RgNC40LLQtdGC?= 8-bit \xd0\xbf\xd1\x80\r\n",
+	"From: Sender <sender@example.com>\r\n",
+	"To: undisclosed-recipients:;\r\n",
+	"Auto-Submitted: no\r\n",
+	"X-Empty:\r\n",
+}
+
+// bounce-grid histories: one line per step, letters for (the recipient that is given up first F, the
+// one kept to the end K, every other recipient O)
+var c10BounceShapes = [][]string{
+	{"P:ptt", "P:oto", "r", "P:ooo"},            // report after the first (in-memory) attempt, retry, restart, delivered
+	{"A:pqq", "r", "P:ott", "P:ooo"},            // atomic target, restart right after the report
+	{"P:ptt", "P:opt", "r", "P:oop"},            // a report in every attempt, the last one removes the message
+	{"R", "P:ptq", "P:oto", "P:ooo"},            // the first attempt (already from the spool) ends in a report
+	{"P:ttt", "P:ptt", "r", "r", "P:oto", "r"},  // report in the second attempt, at rest with somebody pending
+	{"P:pto", "P:otq", "P:oot", "r", "P:ooo"},   // report, two in-process retries, restart
+	{"A:ptt", "A:ott", "r", "A:oop", "A:oto"},   // atomic: body-stage deferrals, a second report after the restart
+	{"P:ptt", "r", "r", "P:ott", "P:opo", "P:oto", "P:ooo"},
+}
+
+func c10GenBounce(r *vh.Rng, k int) string {
+	strs := []string{""}
+	add := func(s string) int {
+		for i, x := range strs {
+			if x == s {
+				return i
+			}
+		}
+		strs = append(strs, s)
+		return len(strs) - 1
+	}
+	uniLocals := []string{"ю́зер", "用户", "josé.núñez", "δοκιμή"}
+	asciiAddr := func() string {
+		for {
+			a := c10Locals[r.Intn(len(c10Locals))] + "@" + c10Domains[r.Intn(len(c10Domains))]
+			ok := true
+			for i := 0; i < strings.IndexByte(a, '@'); i++ {
+				if a[i] >= 0x80 {
+					ok = false
+				}
+			}
+			if ok {
+				return a
+			}
+		}
+	}
+	uniAddr := func() string { return uniLocals[r.Intn(len(uniLocals))] + "@" + c10Domains[r.Intn(len(c10Domains))] }
+	utf8opt := (k/2)%2 == 1
+	from := 0
+	switch {
+	case k%16 == 15: // null sender: no report is due
+	case k%5 == 0:
+		from = add(uniAddr()) // the report has to name a sender with a Unicode local part
+	default:
+		from = add(asciiAddr())
+	}
+	nr := 2 + r.Intn(3)
+	var to []int
+	for len(to) < nr {
+		a := asciiAddr()
+		if len(to) == 0 && k%3 != 2 {
+			a = uniAddr() // the recipient that is given up has a Unicode local part
+		} else if r.Chance(20) {
+			a = uniAddr()
+		}
+		if i := add(a); i != 0 {
+			dup := false
+			for _, t := range to {
+				dup = dup || t == i
+			}
+			if !dup {
+				to = append(to, i)
+			}
+		}
+	}
+	orc := "-"
+	if k%4 != 3 {
+		var ps []string
+		if r.Chance(50) { // the failed recipient is reported under its original address
+			o := asciiAddr()
+			if r.Chance(30) {
+				o = uniAddr()
+			}
+			if oi := add(o); oi != to[0] {
+				ps = append(ps, fmt.Sprintf("%d:%d", to[0], oi))
+			}
+		}
+		if r.Chance(60) { // a chain link / an entry of a recipient handled elsewhere
+			a, b := add(asciiAddr()), add(asciiAddr())
+			known := false
+			for _, t := range to {
+				known = known || t == a
+			}
+			if !known && a != b {
+				ps = append(ps, fmt.Sprintf("%d:%d", a, b))
+			}
+		}
+		if len(ps) > 0 {
+			orc = strings.Join(ps, ".")
+		}
+	}
+	// history
+	expand := func(shape []string, n int) []string {
+		var steps []string
+		for _, st := range shape {
+			if st == "r" || st == "R" {
+				steps = append(steps, st)
+				continue
+			}
+			ls := []byte{st[2]}
+			if n > 1 {
+				ls = append(ls, st[3])
+			}
+			for i := 2; i < n; i++ {
+				l := st[4]
+				if l == 't' && r.Chance(30) {
+					l = "qo"[r.Intn(2)]
+				}
+				ls = append(ls, l)
+			}
+			steps = append(steps, "a"+st[:1]+string(ls))
+		}
+		return steps
+	}
+	steps := expand(c10BounceShapes[k%len(c10BounceShapes)], nr)
+	peerS := "-"
+	if k%3 != 0 {
+		var pt []string
+		var pti []int
+		for n := 1 + r.Intn(2); len(pt) < n; {
+			a := asciiAddr()
+			if r.Chance(25) {
+				a = uniAddr()
+			}
+			if i := add(a); i != 0 {
+				pt = append(pt, strconv.Itoa(i))
+				pti = append(pti, i)
+			}
+		}
+		var ph []string
+		switch (k / 3) % 4 {
+		case 0:
+			ph = []string{"P:tt", "P:oo"}
+		case 1:
+			ph = []string{"P:pt", "r", "P:ot", "P:oo"}
+		case 2:
+			ph = []string{"A:tt", "A:tt", "r", "P:po"}
+		default:
+			ph = []string{"R", "P:tp", "P:oo"}
+		}
+		peerS = strings.Join(pt, ".") + "/" + strings.Join(expand(ph, len(pti)), ".")
+	}
+	// header: trace field on top (added the way maddy adds it), then a mix of touchy fields with at least one Bcc
+	var fields []string
+	{
+		var h textproto.Header
+		v := "from client.example.net (client.example.net [198.51.100.7]) by mx.example.org with ESMTPS id deadbeef; Tue, 29 Sep 2026 10:00:00 +0000"
+		h.Add("Received", v)
+		if raw, err := h.Raw("Received"); err == nil {
+			fields = append(fields, fmt.Sprintf("g:%s:%s:%s", vh.HexBytes([]byte("Received")), vh.HexBytes([]byte(v)), vh.HexBytes(raw)))
+		}
+	}
+	nf := 2 + r.Intn(7)
+	var mid []string
+	for i := 0; i < nf; i++ {
+		mid = append(mid, c10TouchyFields[r.Intn(len(c10TouchyFields))])
+	}
+	if k%8 != 7 { // (one case in eight without any blind-copy field)
+		nb := 1 + r.Intn(2)
+		for i := 0; i < nb; i++ {
+			pos := []int{0, len(mid) / 2, len(mid)}[r.Intn(3)]
+			b := c10TouchyFields[r.Intn(3)]
+			mid = append(mid[:pos], append([]string{b}, mid[pos:]...)...)
+		}
+	}
+	for _, f := range mid {
+		fields = append(fields, "r:"+vh.HexBytes([]byte(f)))
+	}
+	if r.Chance(40) {
+		if h, err := textproto.ReadHeader(c10Reader(c10GenBlobWF(r))); err == nil {
+			parsed, _ := c10RawFields(h)
+			for _, f := range parsed {
+				fields = append(fields, "r:"+vh.HexBytes(f))
+			}
+		}
+	}
+	n := []int{0, 17, 200, 1500, 4097}[r.Intn(5)]
+	kind := r.Intn(5)
+	seed := r.Next() % 1000000007
+	buf := []string{"m", "f"}[r.Intn(2)]
+	body := fmt.Sprintf("%s:%d:%d:%d:%d", buf, kind, n, seed, c10Digest(c10GenBody(kind, n, seed)))
+	flags := c10Bit(utf8opt) + c10Bit(r.Chance(35)) + c10Bit(r.Chance(35)) + c10Bit(r.Chance(20)) + c10Bit(r.Chance(30))
+	dsn := 1
+	if k%8 == 3 {
+		dsn = 2
+	} else if k%32 == 6 {
+		dsn = 0
+	}
+	return c10OpLine(strs, strings.Join(steps, "."), strings.Join(fields, ","), body, from, to, orc, flags, []int{0, 1, 2}[r.Intn(3)], c10Bit(r.Chance(50)), dsn, peerS)
 }
 
 // c10JSONRoundTrip: what encoding/json makes of a string (the model's parameter `co`).
@@ -1691,14 +2397,38 @@ func TestVerifC10Run(t *testing.T) {
 	for e := 0; e < nedge; e++ {
 		jobs <- c10GenRun(re, false, e)
 	}
+	// bounce grid: failure reports between attempts, one source feeding two queues, headers with Bcc
+	// and other fields a report writer may touch, Unicode local parts without SMTPUTF8
+	nbounce := 64
+	if vh.Thorough() {
+		nbounce *= 8
+	}
+	rb := vh.NewRng(vh.Seed() + 2012)
+	for k := 0; k < nbounce; k++ {
+		jobs <- c10GenBounce(rb, k)
+	}
 	// fixed cases (whatever the seed): a message with an EMPTY body / with a header without a single
 	// field, restarted before its first attempt resp. before its second one
 	ha, hb := vh.HexBytes([]byte("a@example.org")), vh.HexBytes([]byte("b@example.org"))
 	subj := "r:" + vh.HexBytes([]byte("Subject: x\r\n"))
 	for _, f := range [][3]string{{"R.aPo", "-", "m:0:0:1:2166136261"}, {"aPt.r.aPo", subj, "f:0:0:1:2166136261"}, {"aAt.r.r.aPt.r", "-", "m:0:0:1:2166136261"},
 		{"R.r.aAo", subj, "m:4:1:1:84696351"}, {"aPt.aPt.r.aPo", "-", "f:4:1:1:84696351"}} {
-		jobs <- fmt.Sprintf("C10 run %s %s %s S=-,%s,%s J=- from=1 to=2 orc=- f=00000 auth=0 late=0", f[0], f[1], f[2], ha, hb)
+		jobs <- fmt.Sprintf("C10 run %s %s %s S=-,%s,%s J=- from=1 to=2 orc=- f=00000 auth=0 late=0 dsn=1 X=- peer=-", f[0], f[1], f[2], ha, hb)
 	}
+	// ... and with a failure report between attempts: one recipient given up in the first attempt while
+	// another stays pending; a second queue whose first attempt comes after the first queue's report;
+	// a Unicode local part to report for a message accepted without SMTPUTF8
+	hf := func(f string) string { return "r:" + vh.HexBytes([]byte(f)) }
+	bhdr := strings.Join([]string{hf("Received: from a.example by mx.example.org; Tue, 29 Sep 2026 10:00:00 +0000\r\n"), hf("From: s@example.com\r\n"),
+		hf("Bcc: hidden@example.org\r\n"), hf("Subject: x\r\n")}, ",")
+	fstrs := func() []string {
+		return []string{"", "sender@example.com", "gone@example.org", "kept@example.org", "other@example.net", "ю́зер@example.org", "用户@例え.jp"}
+	}
+	small := "m:0:17:1:" + strconv.FormatUint(uint64(c10Digest(c10GenBody(0, 17, 1))), 10)
+	jobs <- c10OpLine(fstrs(), "aPpt.aPot.r.aPoo", bhdr, small, 1, []int{2, 3}, "-", "00000", 0, "0", 1, "4/aPt.aPo")
+	jobs <- c10OpLine(fstrs(), "aPpt.aPot.r.aPoo", bhdr, small, 1, []int{5, 3}, "-", "00000", 1, "0", 1, "-")
+	jobs <- c10OpLine(fstrs(), "aApq.r.aPot.aPoo", bhdr, small, 1, []int{2, 3}, "2:6", "01100", 2, "1", 1, "4.5/aPtt.r.aPop")
+	jobs <- c10OpLine(fstrs(), "aPtt.aPpt.r.aPot.r", bhdr, small, 6, []int{2, 3}, "-", "10000", 0, "0", 2, "4/R.aPt.aPo")
 	close(jobs)
 	wg.Wait()
 	_ = errors.New
